@@ -560,6 +560,8 @@ class NDNApp:
         if validator is None:
             raise ValueError('Data Validator must not be None when expressing an Interest.')
         final_name = enc.Name.normalize(final_name)
+        # The pending entry outlives this call: keep copies, not views into buffers the caller may re-use
+        final_name = [bytes(c) for c in final_name]
         future = aio.get_running_loop().create_future()
         # Handle implicit SHA256
         if enc.Component.get_type(final_name[-1]) == enc.Component.TYPE_IMPLICIT_SHA256:
